@@ -356,3 +356,44 @@ func zzH_C16_winMix() {
 	zzSame16(l, want)
 	verifReach("win-mix")
 }
+
+
+// the text in front of the line's marker may be a partial earlier print of the very same line (a console repaint, a
+// redraw after a resize): the first k bytes of the line, an erase / carriage return, then the whole line — both the
+// tmux reader and the Windows reader deliver the whole line
+func zzH_C16_front() {
+	payload := []byte{'#', 'S', ':'}
+	for i := 0; i < verifBound("L"); i++ {
+		c := zzLetter()
+		verifAssume(c != '#')
+		payload = append(payload, c)
+	}
+	k := verifNondetRange(0, len(payload))
+	t := newTransfer(zzNop16{}, nil, false, nil)
+	var stream []byte
+	stream = append(stream, payload[:k]...)
+	if verifNondetBool() {
+		t.windowsProtocol = true
+		if verifNondetBool() {
+			stream = append(stream, 0x1b, '[', '2', 'K')
+		}
+		stream = append(stream, '\r')
+		stream = append(stream, payload...)
+		stream = append(stream, '!', '\n')
+	} else {
+		t.transferConfig.TmuxOutputJunk = true
+		stream = append(stream, payload...)
+		stream = append(stream, '\n')
+	}
+	cut := verifNondetRange(1, len(stream))
+	t.buffer.addBuffer(stream[:cut])
+	if cut < len(stream) {
+		t.buffer.addBuffer(stream[cut:])
+	}
+	verifExpectBlock(1)
+	line, err := t.recvLine("S", false, nil)
+	verifExpectBlock(0)
+	verifAssert(err == nil, "error")
+	zzSame16(line, payload)
+	verifReach("front")
+}
